@@ -82,6 +82,8 @@ def make_case(rng, tier, damage, max_damage=4):
     case = {"files": [(rel, b.token()) for rel, b in files], "pl": pl, "version": version,
             "single": single, "source": source, "creator": rng.choice(creator),
             "via_parent": rng.random() < 0.5, "damage": []}
+    if source.startswith("ref") and version in (1, 3) and not single and rng.random() < 0.3:
+        case["attrs"] = {rel: rng.choice(["x", "h", "xh"]) for rel, _ in files if rng.random() < 0.5}
     if rng.random() < PARENT_LIKE_NAME_P:
         case["parent_like_name"] = True
     if version == 1 and source == "ref" and not single and rng.random() < 0.5:
@@ -247,6 +249,7 @@ def build(box, case):
             name, [((name,) if single else tuple(rel.split("/")), b.bytes()) for rel, b in order],
             pl, version, single=single, trailing_pad=(case["source"] != "ref-notrail"),
             with_length=(case["source"] != "ref-nolen"), block=B,
+            attrs={tuple(rel.split("/")): a for rel, a in (case.get("attrs") or {}).items()},
             extra={"announce": "http://t/a", "created by": "ref"})
         raw = refspec.encode(ref)
         with open(mpath, "wb") as fd:
